@@ -596,7 +596,7 @@ class PropertiesData(Properties):
         if inplace:
             f = self
         else:
-            f = self.copy(data=False)
+            f = self.copy()
 
         f._set_component("data", data, copy=False)
 
